@@ -360,6 +360,12 @@ static int ex_region(char *loc, int *beg, int *end)
 	return 0;
 }
 
+/* address 0 (before the first line) is only meaningful for the commands that add text */
+static int ex_zero(char *loc, int beg, int end)
+{
+	return loc[0] && strcmp("%", loc) && !beg && !end;
+}
+
 static char *lbuf_save(struct lbuf *lb, int beg, int end, char *path, int force, long ts)
 {
 	int fd;
@@ -542,7 +548,7 @@ static int ec_read(char *loc, char *cmd, char *arg, char *txt)
 	char *obuf;
 	int n = lbuf_len(xb);
 	path = arg[0] ? ex_pathexpand(arg, 1) : ex_path();
-	if (ex_region(loc, &beg, &end) || path == NULL)
+	if ((ex_region(loc, &beg, &end) && (beg != 0 || end != 0)) || path == NULL)
 		return 1;
 	pos = lbuf_len(xb) ? end : 0;
 	if (path[0] == '!') {
@@ -674,7 +680,7 @@ static int ec_print(char *loc, char *cmd, char *arg, char *txt)
 	if (!cmd[0] && !loc[0])
 		if (xrow >= lbuf_len(xb))
 			return 1;
-	if (ex_region(loc, &beg, &end))
+	if (ex_region(loc, &beg, &end) || ex_zero(loc, beg, end))
 		return 1;
 	for (i = beg; i < end; i++)
 		ex_print(lbuf_get(xb, i));
@@ -713,7 +719,7 @@ static int ec_rs(char *loc, char *cmd, char *arg, char *txt)
 static int ec_delete(char *loc, char *cmd, char *arg, char *txt)
 {
 	int beg, end;
-	if (ex_region(loc, &beg, &end) || !lbuf_len(xb))
+	if (ex_region(loc, &beg, &end) || ex_zero(loc, beg, end) || !lbuf_len(xb))
 		return 1;
 	ex_yank(REG(arg), beg, end);
 	lbuf_edit(xb, NULL, beg, end);
@@ -724,7 +730,7 @@ static int ec_delete(char *loc, char *cmd, char *arg, char *txt)
 static int ec_yank(char *loc, char *cmd, char *arg, char *txt)
 {
 	int beg, end;
-	if (ex_region(loc, &beg, &end) || !lbuf_len(xb))
+	if (ex_region(loc, &beg, &end) || ex_zero(loc, beg, end) || !lbuf_len(xb))
 		return 1;
 	ex_yank(REG(arg), beg, end);
 	return 0;
@@ -737,7 +743,7 @@ static int ec_put(char *loc, char *cmd, char *arg, char *txt)
 	char *buf;
 	int n = lbuf_len(xb);
 	buf = reg_get(REG(arg), &lnmode);
-	if (!buf || ex_region(loc, &beg, &end))
+	if (!buf || (ex_region(loc, &beg, &end) && (beg != 0 || end != 0)))
 		return 1;
 	lbuf_edit(xb, buf, end, end);
 	xrow = MAX(0, MIN(lbuf_len(xb) - 1, end + lbuf_len(xb) - n - 1));
@@ -748,7 +754,7 @@ static int ec_lnum(char *loc, char *cmd, char *arg, char *txt)
 {
 	char msg[128];
 	int beg, end;
-	if (ex_region(loc, &beg, &end))
+	if (ex_region(loc, &beg, &end) || ex_zero(loc, beg, end))
 		return 1;
 	sprintf(msg, "%d\n", end);
 	ex_print(msg);
@@ -768,7 +774,7 @@ static int ec_redo(char *loc, char *cmd, char *arg, char *txt)
 static int ec_mark(char *loc, char *cmd, char *arg, char *txt)
 {
 	int beg, end;
-	if (ex_region(loc, &beg, &end))
+	if (ex_region(loc, &beg, &end) || ex_zero(loc, beg, end))
 		return 1;
 	lbuf_mark(xb, (unsigned char) arg[0], end - 1, 0);
 	return 0;
@@ -860,7 +866,7 @@ static int ec_exec(char *loc, char *cmd, char *arg, char *txt)
 		ex_print(NULL);
 		return cmd_exec(ecmd);
 	}
-	if (ex_region(loc, &beg, &end))
+	if (ex_region(loc, &beg, &end) || ex_zero(loc, beg, end))
 		return 1;
 	text = lbuf_cp(xb, beg, end);
 	rep = cmd_pipe(ecmd, text, 1);
@@ -948,7 +954,7 @@ static int ec_glob(char *loc, char *cmd, char *arg, char *txt)
 	int i;
 	if (!loc[0] && !xgdep)
 		strcpy(loc, "%");
-	if (ex_region(loc, &beg, &end))
+	if (ex_region(loc, &beg, &end) || ex_zero(loc, beg, end))
 		return 1;
 	not = strchr(cmd, '!') || cmd[0] == 'v';
 	pat = re_read(&s);
@@ -1077,7 +1083,7 @@ static int ec_at(char *loc, char *cmd, char *arg, char *txt)
 	int beg, end;
 	int lnmode;
 	char *buf = reg_get(REG(arg), &lnmode);
-	if (!buf || ex_region(loc, &beg, &end))
+	if (!buf || ex_region(loc, &beg, &end) || ex_zero(loc, beg, end))
 		return 1;
 	xrow = beg;
 	if (cmd[0] == 'r' && cmd[1] == 'a') {
